@@ -287,7 +287,18 @@ func main() {
 		vcommon.Harness("mkdtemp: %v", err)
 	}
 	defer os.RemoveAll(tmp)
-	pool := c12lib.NewPool(*flagProcs, tmp, "-tier", r.Tier)
+	procs := *flagProcs
+	if procs == 0 {
+		// a Core with every component enabled holds 7 to 11 inotify instances (configuration watcher + two per TLS
+		// certificate loader) and the per-user limit is 128: at most 8 Cores at a time
+		procs = 8
+	}
+	pool := c12lib.NewPool(procs, tmp, "-tier", r.Tier)
+	// a Core that fails to start leaks the watchers of the certificate loaders created before the failure:
+	// the worker that saw it is replaced
+	pool.Recycle = func(raw json.RawMessage) bool {
+		return strings.Contains(string(raw), `"skip":`) || strings.Contains(string(raw), `"env":`)
+	}
 	defer pool.Close()
 	fail := func(format string, a ...any) {
 		pool.Close()
@@ -309,6 +320,7 @@ func main() {
 	var done []outcome
 	cores := 0
 	envRetries := 0
+	var crashNotes []string
 	exhaustive := true
 	chunk := pool.N * 8
 	runCases := func(list []*caseInfo) []*CaseResult {
@@ -318,8 +330,13 @@ func main() {
 		}
 		out := make([]*CaseResult, len(list))
 		for i, pr := range pool.Run(jobs) {
+			for retry := 0; pr.Crash != "" && retry < 2; retry++ {
+				// a death that does not reproduce is recorded (evidence: worker_crashes, note) but is not a verdict on C13
+				crashNotes = append(crashNotes, list[i].label+": "+lastChars(pr.Crash, 1200))
+				pr = pool.Run([]any{list[i].c})[0]
+			}
 			if pr.Crash != "" {
-				out[i] = &CaseResult{Failure: "the process died: " + vcommon.Short(pr.Crash, 800)}
+				out[i] = &CaseResult{Failure: "the process died (3 executions out of 3): " + lastChars(pr.Crash, 2500)}
 				continue
 			}
 			var cr CaseResult
@@ -350,7 +367,7 @@ func main() {
 			for k, pr := range pool.Run(again) {
 				var cr CaseResult
 				if pr.Crash != "" {
-					cr = CaseResult{Failure: "the process died: " + vcommon.Short(pr.Crash, 800)}
+					cr = CaseResult{Failure: "the process died: " + lastChars(pr.Crash, 2500)}
 				} else if err := json.Unmarshal(pr.Raw, &cr); err != nil {
 					fail("bad worker answer: %v", err)
 				}
@@ -601,6 +618,11 @@ func main() {
 	r.Set("parameters_covered", len(confParamNames()))
 	r.Set("alternative_values", len(ds))
 	r.Set("worker_crashes", pool.Crashed.Load())
+	for i, n := range crashNotes {
+		if i < 3 {
+			r.Note("a worker process died once and the case passed when re-executed (not a C13 verdict): %s", n)
+		}
+	}
 	r.Set("bound_completed", fmt.Sprintf("%d of %d enumerated cases", len(done), len(cases)))
 	r.Exhaustive = exhaustive
 	r.Assumptions = []string{
@@ -678,4 +700,11 @@ func jsonDiff(a, b string) string {
 		}
 	}
 	return strings.Join(out, "\n")
+}
+
+func lastChars(s string, n int) string {
+	if len(s) > n {
+		return "…" + s[len(s)-n:]
+	}
+	return s
 }
